@@ -40,6 +40,8 @@ GEN_V = os.path.join(common.COQ, "gen", "GenC15.v")
 SIG_RESERVED = "rawsocket recvHandler: frame of reserved type 3..7 is not rejected (nil message delivered / router panics)"
 SIG_LEN24 = "rawsocket sendHandler: message of exactly 2^24 bytes is framed with length 0 and corrupts the stream"
 SIG_INTERLEAVE = "rawsocket: PONG written by recvHandler between the header and body Writes of sendHandler"
+SIG_ANNOUNCED = "rawsocket: a frame within the receive limit the peer announced in its handshake is not delivered (connection closed)"
+SIG_OVER_NIL = "rawsocket recvHandler: a frame longer than the receive limit is not rejected as a whole (nil message delivered / stream misparsed)"
 SIG_WS_UNSER = "websocket sender loop: a message the codec cannot encode is not dropped alone (later messages lost or disturbed)"
 
 SERS = [("json", 1), ("msgpack", 2), ("cbor", 3)]
@@ -197,7 +199,7 @@ def run_impl(binp, lines, shards=None, timeout=1500):
             if not hung:
                 m = re.search(r"(panic: .*|fatal error: .*)", se)
                 head = m.group(1) if m else "exit status %d" % rc
-                site = re.findall(r"(github\.com/gammazero/nexus/v3/[^\s(]+)", se)
+                site = [re.sub(r"\(0x[0-9a-f, x.]*\)$", "", x) for x in re.findall(r"(github\.com/gammazero/nexus/v3/\S+)", se)]
                 res[bad] = "CRASH %s at %s" % (head[:200], ",".join(site[:3]))
             todo = todo[ids.index(bad) + 1:]
         return res
@@ -370,6 +372,15 @@ def classify(case, obs, spec_exp):
     if k in ("recv", "router_recv"):
         ft = case.kw.get("ftype")
         crash = obs.get("_", "")
+        ck = "closed_early" if k == "recv" else "closed"
+        if case.kw.get("cfg", 0) > 0 and obs.get(ck) == "true" and (spec_exp or {}).get(ck) == "false":
+            return SIG_ANNOUNCED, ("server configured with RecvLimit %d announces %d bytes in its handshake, but closes the connection on a frame "
+                                   "within that limit: a frame within the limit the receiver announced must arrive and not end the connection"
+                                   % (case.kw["cfg"], announced_limit(case.kw["cfg"])))
+        over = re.search(r"\bnil\b", obs.get("delivered", "")) or crash.startswith("CRASH")
+        if over and ft is not None and ft <= 2:
+            return SIG_OVER_NIL + (" [router process panics]" if crash.startswith("CRASH") else ""), "a type-%d frame whose header announces more than the receive limit %s" % (
+                ft, "crashes the router process: " + crash if crash.startswith("CRASH") else "makes recvHandler deliver a nil message")
         if (ft is not None and ft >= 3 and crash.startswith("CRASH")) or re.search(r"\bnil\b", obs.get("delivered", "")):
             return SIG_RESERVED, "a rawsocket frame of reserved type %s" % (
                 "crashes the router process: " + crash if crash.startswith("CRASH") else "makes recvHandler deliver a nil message")
@@ -377,6 +388,14 @@ def classify(case, obs, spec_exp):
         m = re.search(r"16777216:(sent:00000000|garbled)", obs.get("text", ""))
         if m:
             return SIG_LEN24, "a serialized message of 2^24 bytes passes the send limit test and is framed with length 0"
+        want = dict(x.split(":", 1) for x in kv((spec_exp or {}).get("text", "")).get("recv", "").split(";") if ":" in x)
+        got = dict(x.split(":", 1) for x in kv(obs.get("text", "")).get("recv", "").split(";") if ":" in x)
+        lost = sorted(int(n) for n in want if want[n] == "delivered" and got.get(n) not in (None, "delivered"))
+        if lost:
+            side = "server configured with RecvLimit" if k == "limits_server" else "client configured with recvLimit"
+            return SIG_ANNOUNCED, ("%s %s announces %s bytes in its handshake, but a message frame of %d bytes is not delivered (%s): "
+                                   "a frame within the limit the receiver announced must arrive and not end the connection"
+                                   % (side, case.kw.get("cfg", "?"), case.kw.get("ann", "?"), lost[0], got.get(str(lost[0]))))
     if k == "ws_peer" and obs.get("sent") != (spec_exp or {}).get("sent"):
         return SIG_WS_UNSER, "websocket peer (%s sender loop): queue %s, messages written: %s, expected: %s" % (
             "keep-alive" if case.kw.get("ka") else "plain", (case.impl or "").split(" ")[-1], obs.get("sent"), (spec_exp or {}).get("sent"))
@@ -390,6 +409,16 @@ def classify(case, obs, spec_exp):
         keys = [kk for kk in ("hs", "send", "recv") if da.get(kk) != db.get(kk)]
     return "C15:%s:%s" % (k, "+".join(keys) or "differs"), \
         "implementation and reference model disagree on %s (%s)" % (k, ", ".join(keys))
+
+
+def announced_limit(cfg):
+    """the limit a peer configured with cfg announces: the least 2^k (k = 9..24) >= cfg; 2^24 for cfg <= 0 or too large"""
+    if cfg <= 0 or cfg > (1 << 24):
+        return 1 << 24
+    k = 9
+    while (1 << k) < cfg:
+        k += 1
+    return 1 << k
 
 
 def frame(t, body):
@@ -494,6 +523,26 @@ def make_cases(tier, rng, wide):
             line = "limits_server %d %d %d,%d,%d %d,%d,%d" % (Rr, b1, S - 1, S, S + 1, Rr - 1, Rr, Rr + 1)
             add("limits_server", line, line, ser=sname)
 
+    # --- configured limits that are not the announced ones (server RecvLimit / client recvLimit: 0, powers of
+    # two, non-powers of two, below 512, above 16M): frames of announced-limit-1, =limit, +1 bytes each way,
+    # plus the configured value and the one after it
+    cfg_matrix = [0, 4096, 1000, 1500, 70000, 100, 300, 511, 513, (1 << 24) + 5]
+    if wide:
+        cfg_matrix += [1, 2047, 2049, 65537, 1 << 23, (1 << 23) + 1, 1 << 30]
+    for cfg in cfg_matrix:
+        ann = announced_limit(cfg)
+        rs_ = sorted(set(x for x in (ann - 1, ann, ann + 1, cfg, cfg + 1, (cfg + ann) // 2) if 400 < x <= maxlen))
+        sers = SERS if (ann <= (1 << 17) or wide) else [("msgpack", 2)]
+        for sname, sb in sers:
+            kc = 3 if ann != 4096 else 2   # what the other side announces: a different limit
+            S = 1 << (kc + 9)
+            b1 = (kc << 4) | sb
+            line = "limits_server %d %d %d,%d,%d %s" % (cfg, b1, S - 1, S, S + 1, ",".join(map(str, rs_)))
+            add("limits_server", line, line, ser=sname, cfg=cfg, ann=ann)
+            reply = hexb([0x7f, b1, 0, 0])
+            line = "limits_client %d %d %s %d,%d,%d %s" % (sb, cfg, reply, S - 1, S, S + 1, ",".join(map(str, rs_)))
+            add("limits_client", line, line, ser=sname, cfg=cfg, ann=ann)
+
     # --- receive loop on byte streams: every frame type (and reserved upper bits), limits, truncation
     for sname, sb in SERS:
         g1, g2 = good_body(sname, "one"), good_body(sname, "two")
@@ -514,11 +563,17 @@ def make_cases(tier, rng, wide):
         streams.append((frame(1, b"abcdef")[:-2] , 0, None))
         streams.append((frame(2, b"abcdef")[:-2] + b"", 0, None))
         streams.append((b"", 0, None))
-        for cfg in (512, 1024):
-            for ln in (cfg - 1, cfg, cfg + 1):
+        for cfg in (512, 1024, 1000, 1500, 300):
+            ann = announced_limit(cfg)
+            for ln in sorted(set((ann - 1, ann, ann + 1, cfg, cfg + 1))):
                 for t in (0, 1, 2):
                     body = (b"x" * ln) if t else (good_body(sname, "p") + b" " * ln)[:ln] if sname == "json" else b"x" * ln
                     streams.append((frame(t, body) + frame(0, g2), cfg, t))
+            # a header announcing more than the limit, the body not (all) there: the frame is rejected on its header
+            for t in (0, 1, 2):
+                hdr = frame(t, b"y" * (ann + 1))[:4]
+                streams.append((frame(0, g1) + hdr + b"y" * 8 + frame(0, g2), cfg, t))
+                streams.append((hdr, cfg, t))
         for _ in range(60 if not wide else 1500):
             s = b""
             for _ in range(rng.randrange(1, 6)):
@@ -541,7 +596,7 @@ def make_cases(tier, rng, wide):
         for (st, cfg, ft) in streams:
             nib = 15
             add("recv", "recv %s %d %d %s" % (sname, cfg, nib, hexb(st)),
-                "recvcase %d %d %d %s" % (cfg, nib, sb, hexb(st)), ser=sname, ftype=ft)
+                "recvcase %d %d %d %s" % (cfg, nib, sb, hexb(st)), ser=sname, ftype=ft, cfg=cfg)
 
     # --- the same through a router behind router.RawSocketServer (process-level: a panic is a crash)
     for sname, sb in SERS:
@@ -550,6 +605,17 @@ def make_cases(tier, rng, wide):
                 st = frame(t, b"\xaa")
                 add("router_recv", "router_recv %s %d %s" % (sname, cfg, hexb(st)),
                     "routercase %d %d %s" % (cfg, sb, hexb(st)), ser=sname, ftype=t)
+
+    # a configured RecvLimit (also not a power of two): a frame of exactly the announced limit passes, a header
+    # announcing more ends that connection only (the router stays up)
+    for sname, sb in SERS:
+        for cfg in (1000, 4096):
+            ann = announced_limit(cfg)
+            for t in (0, 1, 2):
+                for st in (frame(t, b"\xaa" * ann), frame(t, b"\xaa" * (ann + 1))[:4] + b"\xaa" * 16,
+                           frame(t, b"\xaa" * (cfg + 1))):
+                    add("router_recv", "router_recv %s %d %s" % (sname, cfg, hexb(st)),
+                        "routercase %d %d %s" % (cfg, sb, hexb(st)), ser=sname, ftype=t, cfg=cfg)
 
     # --- PING while a frame is being written
     for sname, sb in (SERS if wide else [("msgpack", 2)]):
